@@ -741,6 +741,11 @@ func (p *printer) printBinding(binding js_ast.Binding) {
 							p.addSourceMapping(property.Key.Loc)
 							p.printQuotedUTF8(name, 0)
 						}
+					} else if str, ok := property.Key.Data.(*js_ast.EString); ok {
+						// A property name cannot be a template literal, so don't print
+						// this like a string expression (which may use backticks)
+						p.addSourceMapping(property.Key.Loc)
+						p.printQuotedUTF16(str.Value, 0)
 					} else {
 						p.printExpr(property.Key, js_ast.LLowest, 0)
 					}
